@@ -785,7 +785,16 @@ func (e *Enc) encodeInstr(fr *frame, b *ssa.BasicBlock, idx int, in ssa.Instruct
 	case *ssa.Select:
 		e.note("select (not modelled)")
 		e.havocAll(st, "select")
-		e.setVal(x, e.freshVal(st, x.Type(), "select"))
+		sv := e.freshVal(st, x.Type(), "select")
+		if len(sv.Tup) > 0 && sv.Tup[0].T != "" {
+			// the index of the chosen case
+			lo := "0"
+			if !x.Blocking {
+				lo = "(- 1)"
+			}
+			e.assert(sAnd(app("<=", lo, sv.Tup[0].T), app("<", sv.Tup[0].T, fmt.Sprint(len(x.States)))))
+		}
+		e.setVal(x, sv)
 	case *ssa.Range:
 		e.encodeRange(fr, st, x)
 	case *ssa.Next:
